@@ -404,7 +404,16 @@ def templates():
             ratios = [0.3, 0.3]
         if g.random() < 0.3:
             ratios = np.array(ratios, dtype=float)       # the ratios as an array instead of a list
-        return [data, ratios], {"random_state": g.choice([0, 1, 42, None])}
+        kw = {"random_state": g.choice([0, 1, 42, None])}
+        r1, r2, r3 = g.random(), g.random(), g.random()
+        if r1 < 0.15:
+            # ratios whose floating-point sum is not exactly 1 (0.7 + 0.2 + 0.1 == 0.9999999999999999), list or array
+            ratios = g.choice([[0.7, 0.2, 0.1], [0.1] * 10, [0.6, 0.3, 0.1], [0.3, 0.3, 0.4], [1 / 3.0] * 3])
+            if r2 < 0.6:
+                ratios = np.array(ratios, dtype=float)
+        if r3 < 0.2:
+            kw = {}                                   # random_state left to its documented default
+        return [data, ratios], kw
 
     @t("sorted_tuple")
     def _(g, pm):
